@@ -7,7 +7,15 @@
    Objects are numbered k : nat.  The owner's table maps k to the count field of its slot
    ([obj, count]); the peer's weak proxy cache maps k to the ____refcount__ of the live proxy.
    The constants and the comparison used by the code are parameters (record rparams); the values
-   found in the source tree are regenerated into gen/Gen_colls.v on every run. *)
+   found in the source tree are regenerated into gen/Gen_colls.v on every run.
+
+   SCOPE.  The objects of this model are objects whose proxy class the peer already knows (builtin types:
+   functions, methods, lists, dicts, sets, ...): unboxing a reference never needs a nested HANDLE_INSPECT
+   exchange, one message is consumed per delivery and the peer has at most one live proxy per object.
+   User-class instances (a nested exchange for every fresh proxy, possibly several live proxies of one
+   object) are NOT modelled; the harness evaluates the property's statement on them directly.
+   The model also assumes that an object's key (rpyc.lib.get_id_pack) does not change while it is lent;
+   the operation [Morph] models such a change (it is not a [valid_op]). *)
 From V Require Import lib.Base lib.Sx.
 From Coq Require Import String.
 Open Scope Z_scope.
@@ -23,11 +31,17 @@ Record rparams := {
   p_proxy_init : Z;        (* BaseNetref.__init__: self.____refcount__ = <this> *)
   p_unbox_inc : Z;         (* _unbox: proxy.____refcount__ += <this> when cached *)
   p_del_src : delsrc;      (* BaseNetref.__del__: which count is sent with HANDLE_DEL *)
-  p_cleanup_clears : bool  (* _cleanup calls self._local_objects.clear() *)
+  p_cleanup_clears : bool; (* _cleanup contains self._local_objects.clear() *)
+  p_send_checks_closed : bool;  (* _async_request refuses (EOFError) before boxing once the channel is closed *)
+  p_cleanup_guarded : bool;     (* in _cleanup the clear is reached even when the service's on_disconnect raises *)
+  p_close_finally : bool        (* in close() the _cleanup call sits in the `finally` of the try around hook and CLOSE *)
 }.
-Definition std_params : rparams :=
+(* the parameters the theorems are proved for; the three booleans are the facts found in the tree *)
+Definition stdp (sc cg cf : bool) : rparams :=
   {| p_add_init := 0; p_add_inc := 1; p_dec_cmp := CLt; p_dec_default := 1; p_proxy_init := 1;
-     p_unbox_inc := 1; p_del_src := DRefcount; p_cleanup_clears := true |}.
+     p_unbox_inc := 1; p_del_src := DRefcount; p_cleanup_clears := true;
+     p_send_checks_closed := sc; p_cleanup_guarded := cg; p_close_finally := cf |}.
+Definition std_params : rparams := stdp true true true.
 
 Definition cmp_holds (c : rcmp) (a b : Z) : bool :=
   match c with
@@ -52,15 +66,16 @@ Definition coll_getitem (t : tbl) (k : nat) : result unit :=
 Definition coll_clear (t : tbl) : tbl := fun _ => None.
 
 (* ---- messages in flight ---- *)
+Inductive umode := UVal | URet | UBoom.   (* the callee returns a plain value / its first argument / raises *)
 Inductive msg :=
 | MCall (ks : list nat)                 (* A->B request keep(...): one REMOTE_REF per occurrence *)
+| MCallRaise (ks : list nat)            (* A->B request whose callee at the peer raises after unboxing *)
 | MReplyRef (r : option nat)            (* A->B reply: a plain value, or object r by reference *)
-| MExc                                  (* A->B exception reply (KeyError while serving) *)
+| MExc                                  (* exception reply (either direction) *)
 | MDel (k : nat) (n : Z)                (* B->A HANDLE_DEL (LOCAL_REF k, count n) *)
 | MDel0 (k : nat)                       (* B->A HANDLE_DEL without a count (handler default) *)
-| MUse (c : nat) (args : list nat) (ret : bool)
-                                        (* B->A request through proxy c, proxies args passed back;
-                                           ret: the callee returns its first argument *)
+| MUse (c : nat) (args : list nat) (m : umode)
+                                        (* B->A request through proxy c, proxies args passed back *)
 | MReply.                               (* B->A reply carrying a plain value *)
 
 Record st := {
@@ -71,52 +86,75 @@ Record st := {
   qab : list msg;             (* stream A -> B, head = next to be consumed *)
   qba : list msg;             (* stream B -> A *)
   closed : bool;
-  errs : nat                  (* KeyErrors raised at the owner while serving the peer *)
+  errs : nat;                 (* KeyErrors raised at the owner while serving the peer *)
+  tbo : list nat;             (* objects referenced by the frames of A._last_traceback *)
+  pin : list nat;             (* proxies referenced by the frames of B._last_traceback *)
+  morphed : nat -> bool       (* the object's key changed after it was lent *)
 }.
 Definition init : st :=
   {| slot := fun _ => None; appref := fun _ => true; prox := fun _ => None; holds := fun _ => O;
-     qab := []; qba := []; closed := false; errs := O |}.
+     qab := []; qba := []; closed := false; errs := O; tbo := []; pin := []; morphed := fun _ => false |}.
 
-Definition set_slot (s : st) t := {| slot := t; appref := appref s; prox := prox s; holds := holds s; qab := qab s; qba := qba s; closed := closed s; errs := errs s |}.
-Definition set_qab (s : st) q := {| slot := slot s; appref := appref s; prox := prox s; holds := holds s; qab := q; qba := qba s; closed := closed s; errs := errs s |}.
-Definition set_qba (s : st) q := {| slot := slot s; appref := appref s; prox := prox s; holds := holds s; qab := qab s; qba := q; closed := closed s; errs := errs s |}.
-Definition set_peer (s : st) p h := {| slot := slot s; appref := appref s; prox := p; holds := h; qab := qab s; qba := qba s; closed := closed s; errs := errs s |}.
-Definition set_appref (s : st) a := {| slot := slot s; appref := a; prox := prox s; holds := holds s; qab := qab s; qba := qba s; closed := closed s; errs := errs s |}.
-Definition add_err (s : st) := {| slot := slot s; appref := appref s; prox := prox s; holds := holds s; qab := qab s; qba := qba s; closed := closed s; errs := S (errs s) |}.
+Definition set_slot (s : st) t := {| slot := t; appref := appref s; prox := prox s; holds := holds s; qab := qab s; qba := qba s; closed := closed s; errs := errs s; tbo := tbo s; pin := pin s; morphed := morphed s |}.
+Definition set_qab (s : st) q := {| slot := slot s; appref := appref s; prox := prox s; holds := holds s; qab := q; qba := qba s; closed := closed s; errs := errs s; tbo := tbo s; pin := pin s; morphed := morphed s |}.
+Definition set_qba (s : st) q := {| slot := slot s; appref := appref s; prox := prox s; holds := holds s; qab := qab s; qba := q; closed := closed s; errs := errs s; tbo := tbo s; pin := pin s; morphed := morphed s |}.
+Definition set_peer (s : st) p h := {| slot := slot s; appref := appref s; prox := p; holds := h; qab := qab s; qba := qba s; closed := closed s; errs := errs s; tbo := tbo s; pin := pin s; morphed := morphed s |}.
+Definition set_appref (s : st) a := {| slot := slot s; appref := a; prox := prox s; holds := holds s; qab := qab s; qba := qba s; closed := closed s; errs := errs s; tbo := tbo s; pin := pin s; morphed := morphed s |}.
+Definition add_err (s : st) := {| slot := slot s; appref := appref s; prox := prox s; holds := holds s; qab := qab s; qba := qba s; closed := closed s; errs := S (errs s); tbo := tbo s; pin := pin s; morphed := morphed s |}.
+Definition set_tbo (s : st) l := {| slot := slot s; appref := appref s; prox := prox s; holds := holds s; qab := qab s; qba := qba s; closed := closed s; errs := errs s; tbo := l; pin := pin s; morphed := morphed s |}.
+Definition set_pin (s : st) l := {| slot := slot s; appref := appref s; prox := prox s; holds := holds s; qab := qab s; qba := qba s; closed := closed s; errs := errs s; tbo := tbo s; pin := l; morphed := morphed s |}.
+Definition set_morphed (s : st) f := {| slot := slot s; appref := appref s; prox := prox s; holds := holds s; qab := qab s; qba := qba s; closed := closed s; errs := errs s; tbo := tbo s; pin := pin s; morphed := f |}.
+
+Definition mem (k : nat) (l : list nat) : bool := existsb (Nat.eqb k) l.
 
 (* ---- owner side ---- *)
 (* _box of every occurrence: _local_objects.add *)
 Definition box_all (P : rparams) (t : tbl) (ks : list nat) : tbl := fold_left (coll_add P) ks t.
 
-Definition send (P : rparams) (ks : list nat) (s : st) : st :=
+Definition send (P : rparams) (boom : bool) (ks : list nat) (s : st) : st :=
   let ks' := filter (appref s) ks in
-  set_qab (set_slot s (box_all P (slot s) ks')) (qab s ++ [MCall ks']).
+  set_qab (set_slot s (box_all P (slot s) ks')) (qab s ++ [if boom then MCallRaise ks' else MCall ks']).
 
 (* all LOCAL_REF lookups of one request succeed? (_unbox: self._local_objects[value]) *)
 Definition all_present (t : tbl) (ks : list nat) : bool :=
   forallb (fun k => match t k with Some _ => true | None => false end) ks.
 
 Definition reply (s : st) (m : msg) : st := set_qab s (qab s ++ [m]).
+(* a KeyError while serving: counted, answered with an exception; its traceback replaces the previous one
+   and references no lent object (pins: the objects its frames do reference) *)
+Definition fail_owner (s : st) (pins : list nat) : st := reply (set_tbo (add_err s) pins) MExc.
 
 Definition serve_owner (P : rparams) (m : msg) (s : st) : st :=
   match m with
   | MDel k n =>
-      match coll_decref P (slot s) k n with
-      | Ok t => reply (set_slot s t) (MReplyRef None)
-      | _ => reply (add_err s) MExc
+      match slot s k with
+      | None => fail_owner s []
+      | Some _ =>
+          (* _handle_del recomputes the key from the object: get_id_pack(obj) *)
+          if morphed s k then fail_owner s [k] else
+          match coll_decref P (slot s) k n with
+          | Ok t => reply (set_slot s t) (MReplyRef None)
+          | _ => fail_owner s []
+          end
       end
   | MDel0 k =>
-      match coll_decref P (slot s) k (p_dec_default P) with
-      | Ok t => reply (set_slot s t) (MReplyRef None)
-      | _ => reply (add_err s) MExc
+      match slot s k with
+      | None => fail_owner s []
+      | Some _ =>
+          if morphed s k then fail_owner s [k] else
+          match coll_decref P (slot s) k (p_dec_default P) with
+          | Ok t => reply (set_slot s t) (MReplyRef None)
+          | _ => fail_owner s []
+          end
       end
-  | MUse c args ret =>
+  | MUse c args md =>
       if all_present (slot s) (c :: args) then
-        match ret, args with
-        | true, r :: _ => reply (set_slot s (coll_add P (slot s) r)) (MReplyRef (Some r))
+        match md, args with
+        | UBoom, _ => reply (set_tbo s (c :: args)) MExc        (* the callee raised: _last_traceback = tb *)
+        | URet, r :: _ => reply (set_slot s (coll_add P (slot s) r)) (MReplyRef (Some r))
         | _, _ => reply s (MReplyRef None)
         end
-      else reply (add_err s) MExc
+      else fail_owner s []
   | _ => s
   end.
 
@@ -127,17 +165,37 @@ Definition deliver_ba (P : rparams) (s : st) : st :=
   end.
 
 (* ---- peer side ---- *)
-(* _unbox of one REMOTE_REF, the result is kept by the peer application *)
+(* _unbox of one REMOTE_REF: bump the cached live proxy or create one *)
+Definition unbox_p (P : rparams) (p : nat -> option Z) (k : nat) : nat -> option Z :=
+  upd p k (match p k with Some r => Some (r + p_unbox_inc P) | None => Some (p_proxy_init P) end).
+(* ... and the result is kept by the peer application *)
 Definition unbox1 (P : rparams) (ph : (nat -> option Z) * (nat -> nat)) (k : nat) :=
-  let (p, h) := ph in
-  (upd p k (match p k with Some r => Some (r + p_unbox_inc P) | None => Some (p_proxy_init P) end),
-   upd h k (S (h k))).
+  let (p, h) := ph in (unbox_p P p k, upd h k (S (h k))).
 Definition unbox_all (P : rparams) (s : st) (ks : list nat) : st :=
   let (p, h) := fold_left (unbox1 P) ks (prox s, holds s) in set_peer s p h.
+
+(* the finalizer of proxy k runs: BaseNetref.__del__ *)
+Definition del_msg (P : rparams) (k : nat) (r : Z) : msg :=
+  match p_del_src P with DRefcount => MDel k r | DDefault => MDel0 k | DConst z => MDel k z end.
+Definition finalize (P : rparams) (k : nat) (s : st) : st :=
+  match prox s k with
+  | Some r => set_qba (set_peer s (upd (prox s) k None) (upd (holds s) k O)) (qba s ++ [del_msg P k r])
+  | None => set_peer s (prox s) (upd (holds s) k O)
+  end.
+
+(* the callee at the peer raised: B._last_traceback = tb.  The frames of the new traceback reference the
+   proxies just unboxed; the exception is reported; the previous traceback is dropped and, once the cycle
+   collector has run (frame -> local tb -> frame), the proxies only it kept alive are finalized *)
+Definition stale (s : st) (ks : list nat) (j : nat) : bool := Nat.eqb (holds s j) O && negb (mem j ks).
+Definition repin (P : rparams) (ks : list nat) (s : st) : st :=
+  let s1 := set_pin (set_peer s (fold_left (unbox_p P) ks (prox s)) (holds s)) ks in
+  let s2 := set_qba s1 (qba s1 ++ [MExc]) in
+  fold_left (fun x j => finalize P j x) (filter (stale s ks) (pin s)) s2.
 
 Definition serve_peer (P : rparams) (m : msg) (s : st) : st :=
   match m with
   | MCall ks => let s' := unbox_all P s ks in set_qba s' (qba s' ++ [MReply])
+  | MCallRaise ks => repin P ks s
   | MReplyRef (Some k) => unbox_all P s [k]
   | _ => s
   end.
@@ -148,80 +206,113 @@ Definition deliver_ab (P : rparams) (s : st) : st :=
   | m :: q => serve_peer P m (set_qab s q)
   end.
 
-(* the finalizer of proxy k runs: BaseNetref.__del__ *)
-Definition del_msg (P : rparams) (k : nat) (r : Z) : msg :=
-  match p_del_src P with DRefcount => MDel k r | DDefault => MDel0 k | DConst z => MDel k z end.
-Definition finalize (P : rparams) (k : nat) (s : st) : st :=
-  match prox s k with
-  | Some r => set_qba (set_peer s (upd (prox s) k None) (upd (holds s) k O)) (qba s ++ [del_msg P k r])
-  | None => set_peer s (prox s) (upd (holds s) k O)
-  end.
+(* the peer application lets go; a proxy that B._last_traceback still references stays alive *)
+Definition release (P : rparams) (k : nat) (s : st) : st :=
+  if mem k (pin s) then set_peer s (prox s) (upd (holds s) k O) else finalize P k s.
 Definition drop_one (P : rparams) (k : nat) (s : st) : st :=
   match holds s k with
   | O => s
-  | S O => finalize P k s
+  | S O => release P k s
   | S h => set_peer s (prox s) (upd (holds s) k h)
   end.
 Definition drop_all (P : rparams) (k : nat) (s : st) : st :=
-  match holds s k with O => s | S _ => finalize P k s end.
+  match holds s k with O => s | S _ => release P k s end.
 
 Definition all_held (s : st) (ks : list nat) : bool :=
   forallb (fun k => negb (Nat.eqb (holds s k) O)) ks.
-Definition use (c : nat) (args : list nat) (ret : bool) (s : st) : st :=
-  if all_held s (c :: args) then set_qba s (qba s ++ [MUse c args ret]) else s.
+Definition use (c : nat) (args : list nat) (md : umode) (s : st) : st :=
+  if all_held s (c :: args) then set_qba s (qba s ++ [MUse c args md]) else s.
 
 (* forced delivery: the peer consumes everything sent so far, then the owner does *)
 Definition sync (P : rparams) (s : st) : st :=
   let s1 := Nat.iter (List.length (qab s)) (deliver_ab P) s in
   Nat.iter (List.length (qba s1)) (deliver_ba P) s1.
 
-Definition cleanup (P : rparams) (s : st) : st :=
-  {| slot := if p_cleanup_clears P then coll_clear (slot s) else slot s; appref := appref s; prox := prox s;
-     holds := holds s; qab := qab s; qba := qba s; closed := true; errs := errs s |}.
-Definition close (P : rparams) (by_peer : bool) (s : st) : st :=
-  cleanup P (if by_peer then Nat.iter (List.length (qba s)) (deliver_ba P) s else s).
+(* ---- closing ---- *)
+Inductive cfault :=
+| FNone     (* nothing goes wrong while closing *)
+| FHook     (* the application's before_closed hook raises (close_catchall off) *)
+| FDisc.    (* the service's on_disconnect raises *)
+(* does the closing connection still reach self._local_objects.clear() ? *)
+Definition close_reaches_clear (P : rparams) (by_peer : bool) (f : cfault) : bool :=
+  match f with
+  | FNone => true
+  | FHook => by_peer || p_close_finally P       (* the hook only runs in close(); a CLOSE request goes to _cleanup directly *)
+  | FDisc => p_cleanup_guarded P
+  end.
+Definition cleanup (P : rparams) (reached : bool) (keep_tb : bool) (s : st) : st :=
+  {| slot := if reached && p_cleanup_clears P then coll_clear (slot s) else slot s; appref := appref s; prox := prox s;
+     holds := holds s; qab := qab s; qba := qba s; closed := true; errs := errs s;
+     tbo := if keep_tb then tbo s else []; pin := pin s; morphed := morphed s |}.
+Definition close (P : rparams) (by_peer : bool) (f : cfault) (s : st) : st :=
+  let reached := close_reaches_clear P by_peer f in
+  cleanup P reached (negb reached && negb by_peer)
+    (if by_peer then Nat.iter (List.length (qba s)) (deliver_ba P) s else s).
 
 (* ---- histories ---- *)
 Inductive op :=
 | Send (ks : list nat)            (* lend the objects ks (each occurrence boxed once), asynchronously *)
 | SendSync (ks : list nat)        (* the same, waiting for the answer *)
+| SendRaise (ks : list nat)       (* lend them to a peer function that raises *)
 | DeliverAB                       (* the peer consumes its next message *)
 | DeliverBA                       (* the owner consumes its next message *)
 | DropOne (k : nat)               (* the peer application drops one reference to proxy k *)
 | DropAll (k : nat)               (* ... all its references to proxy k *)
-| Use (c : nat) (args : list nat) (ret : bool)   (* operate through proxy c, passing proxies back *)
+| Use (c : nat) (args : list nat) (md : umode)   (* operate through proxy c, passing proxies back *)
 | Forget (k : nat)                (* the owner application drops its own reference to object k *)
 | Sync                            (* collect an async result: forces delivery *)
-| Close (by_peer : bool)
+| Close (by_peer : bool) (f : cfault)
+| Morph (k : nat)                 (* the owner application changes the lent object's key (class reassigned,
+                                     module dropped from sys.modules) and lets go of it: not a valid_op *)
 | RawDel (k : nat) (n : Z)        (* misbehaving peer: release notice it is not entitled to send *)
 | RawLocal (k : nat).             (* misbehaving peer: refers to an id it does not hold *)
 
-Definition step (P : rparams) (o : op) (s : st) : st :=
-  if closed s then s else
+(* what a closed connection still does: async_request boxes before it (fails to) send *)
+Definition step_closed (P : rparams) (o : op) (s : st) : st :=
   match o with
-  | Send ks => send P ks s
-  | SendSync ks => sync P (send P ks s)
+  | Send ks | SendSync ks | SendRaise ks =>
+      if p_send_checks_closed P then s else set_slot s (box_all P (slot s) (filter (appref s) ks))
+  | Forget k => set_appref s (upd (appref s) k false)
+  | Morph k => set_appref s (upd (appref s) k false)
+  | _ => s
+  end.
+
+Definition step (P : rparams) (o : op) (s : st) : st :=
+  if closed s then step_closed P o s else
+  match o with
+  | Send ks => send P false ks s
+  | SendSync ks => sync P (send P false ks s)
+  | SendRaise ks => send P true ks s
   | DeliverAB => deliver_ab P s
   | DeliverBA => deliver_ba P s
   | DropOne k => drop_one P k s
   | DropAll k => drop_all P k s
-  | Use c args ret => use c args ret s
+  | Use c args md => use c args md s
   | Forget k => set_appref s (upd (appref s) k false)
   | Sync => sync P s
-  | Close b => close P b s
+  | Close b f => close P b f s
+  | Morph k => set_morphed (set_appref s (upd (appref s) k false)) (upd (morphed s) k true)
   | RawDel k n => set_qba s (qba s ++ [MDel k n])
-  | RawLocal k => set_qba s (qba s ++ [MUse k [] false])
+  | RawLocal k => set_qba s (qba s ++ [MUse k [] UVal])
   end.
 
 Definition run_from (P : rparams) (s : st) (ops : list op) : st := fold_left (fun s o => step P o s) ops s.
 Definition run (P : rparams) (ops : list op) : st := run_from P init ops.
 
+(* operations of a well-behaved peer on objects whose key is stable *)
 Definition valid_op (o : op) : Prop :=
-  match o with RawDel _ _ | RawLocal _ => False | _ => True end.
+  match o with RawDel _ _ | RawLocal _ | Morph _ => False | _ => True end.
+(* ... in which, moreover, no remote call raises (so that no traceback is kept) *)
+Definition calm_op (o : op) : Prop :=
+  match o with
+  | RawDel _ _ | RawLocal _ | Morph _ | SendRaise _ | Use _ _ UBoom => False
+  | _ => True
+  end.
 
-(* the object is alive: its owner application or the owner's connection references it *)
+(* the object is alive: its owner application, the owner's table, or the frames of the owner connection's
+   last traceback reference it *)
 Definition alive (s : st) (k : nat) : bool :=
-  appref s k || match slot s k with Some _ => true | None => false end.
+  appref s k || match slot s k with Some _ => true | None => false end || mem k (tbo s).
 
 (* ---- harness interface ---- *)
 Definition cmp_of_sx (x : sx) : rcmp :=
@@ -230,12 +321,15 @@ Definition delsrc_of_sx (x : sx) : delsrc :=
   match x with SL [SI 0] => DRefcount | SL [SI 1] => DDefault | SL [SI 2; SI z] => DConst z | _ => DRefcount end.
 Definition params_of_sx (x : sx) : rparams :=
   match x with
-  | SL [a; b; c; d; e; f; g; h] =>
+  | SL [a; b; c; d; e; f; g; h; i; j; k] =>
       {| p_add_init := sx_z a; p_add_inc := sx_z b; p_dec_cmp := cmp_of_sx c; p_dec_default := sx_z d;
-         p_proxy_init := sx_z e; p_unbox_inc := sx_z f; p_del_src := delsrc_of_sx g; p_cleanup_clears := sx_bool h |}
+         p_proxy_init := sx_z e; p_unbox_inc := sx_z f; p_del_src := delsrc_of_sx g; p_cleanup_clears := sx_bool h;
+         p_send_checks_closed := sx_bool i; p_cleanup_guarded := sx_bool j; p_close_finally := sx_bool k |}
   | _ => std_params
   end.
 Definition nats_of_sx (x : sx) : list nat := map sx_nat (sx_l x).
+Definition umode_of_sx (x : sx) : umode := match sx_z x with 0 => UVal | 1 => URet | _ => UBoom end.
+Definition cfault_of_sx (x : sx) : cfault := match sx_z x with 0 => FNone | 1 => FHook | _ => FDisc end.
 Definition op_of_sx (x : sx) : op :=
   match x with
   | SL [SI 0; ks] => Send (nats_of_sx ks)
@@ -244,26 +338,30 @@ Definition op_of_sx (x : sx) : op :=
   | SL [SI 3] => DeliverBA
   | SL [SI 4; k] => DropOne (sx_nat k)
   | SL [SI 5; k] => DropAll (sx_nat k)
-  | SL [SI 6; c; args; r] => Use (sx_nat c) (nats_of_sx args) (sx_bool r)
+  | SL [SI 6; c; args; r] => Use (sx_nat c) (nats_of_sx args) (umode_of_sx r)
   | SL [SI 7; k] => Forget (sx_nat k)
   | SL [SI 8] => Sync
-  | SL [SI 9; b] => Close (sx_bool b)
+  | SL [SI 9; b; f] => Close (sx_bool b) (cfault_of_sx f)
   | SL [SI 10; k; n] => RawDel (sx_nat k) (sx_z n)
   | SL [SI 11; k] => RawLocal (sx_nat k)
+  | SL [SI 12; ks] => SendRaise (nats_of_sx ks)
+  | SL [SI 13; k] => Morph (sx_nat k)
   | _ => Sync
   end.
 
 Definition sx_optz (o : option Z) : sx := match o with Some z => SL [SI z] | None => SL [] end.
 Definition sx_nats (l : list nat) : sx := SL (map snat l).
+Definition sx_umode (m : umode) : sx := SI (match m with UVal => 0 | URet => 1 | UBoom => 2 end).
 Definition sx_msg (m : msg) : sx :=
   match m with
   | MCall ks => SL [SS "call"; sx_nats ks]
+  | MCallRaise ks => SL [SS "callraise"; sx_nats ks]
   | MReplyRef (Some k) => SL [SS "replyref"; snat k]
   | MReplyRef None => SL [SS "reply"]
   | MExc => SL [SS "exc"]
   | MDel k n => SL [SS "del"; snat k; SI n]
   | MDel0 k => SL [SS "del0"; snat k]
-  | MUse c args r => SL [SS "use"; sx_nats (c :: args); sbool r]
+  | MUse c args r => SL [SS "use"; sx_nats (c :: args); sx_umode r]
   | MReply => SL [SS "reply"]
   end.
 Definition snapshot (n : nat) (s : st) : sx :=
